@@ -32,6 +32,10 @@ pub fn zone_recs() -> Vec<Rec> {
         r("a.t.", t::TXT, vec![2, b'h', b'i']),
         r("b.t.", t::A, vec![192, 0, 2, 11]),
         r("aa.t.", t::A, vec![192, 0, 2, 12]),
+        // the same octets with the label boundaries elsewhere: different names
+        r("p.qr.t.", t::A, vec![192, 0, 2, 13]),
+        r("pq.r.t.", t::A, vec![192, 0, 2, 14]),
+        r("pqr.t.", t::A, vec![192, 0, 2, 15]),
         r("*.w.t.", t::A, vec![192, 0, 2, 20]),
         r("*.v.t.", t::A, vec![192, 0, 2, 21]),
         r("c.t.", t::CNAME, wname("a.t.")),
@@ -172,6 +176,9 @@ pub fn menu() -> Vec<Kind> {
         kind("a-A-tsig", "a.t.", t::A, EdnsTsig, u, Q, 0, "a.t."),
         kind("b-A", "b.t.", t::A, Plain, u, Q, 0, "b.t."),
         kind("aa-A", "aa.t.", t::A, Plain, u, Q, 0, "aa.t."),
+        kind("shifted-1", "p.qr.t.", t::A, Plain, u, Q, 0, "p.qr.t."),
+        kind("shifted-2", "pq.r.t.", t::A, Plain, u, Q, 0, "pq.r.t."),
+        kind("shifted-3", "PQR.t.", t::A, Plain, u, Q, 0, "pqr.t."),
         kind("c-A-cname", "c.t.", t::A, Plain, u, Q, 0, "c.t."),
         kind("apex-SOA", "t.", t::SOA, Plain, u, Q, 0, "t."),
         kind("referral", "s.d.t.", t::A, Plain, u, Q, 0, "s.d.t."),
